@@ -78,7 +78,7 @@ var defC19F = register(&PropDef{
 	},
 	Step: func() func(t *rapid.T, w *world.World) world.Action {
 		base := fStep(FProfile{MaxConsumers: 2, Remove: true, AbsentC: 20, Raw: true,
-			Weights: map[string]int{"fee": 10, "cblock": 14, "relay": 16, "staking": 6, "timeout": 2, "bigdt": 1, "remove": 1, "raw": 2}})
+			Weights: map[string]int{"fee": 10, "cblock": 14, "relay": 16, "staking": 6, "timeout": 2, "bigdt": 1, "remove": 1, "raw": 2, "errack": 1}})
 		rew := rewardStep()
 		return func(t *rapid.T, w *world.World) world.Action {
 			if len(w.Agenda) == 0 {
